@@ -10,7 +10,7 @@
 //	   "ref":{"sets","tiers","profiles","hostAddrs","polByMsg"}}      PolicySem JSON (specs/winpol/WinSem.tla)
 //	VERIF_SEED / VERIF_N        seeded random cases (classes below)
 //	VERIF_NBIG                  cases whose IP sets / port lists cross the 4000-entries-per-rule chunk limit
-//	VERIF_BEH                   {"alphabet":{code:rule},"layouts":[...]} enumerated by TLC (specs/winpol/Gen_Win)
+//	VERIF_BEH                   {"alphabet":{code:rule},"sets":ipsets,"layouts":[...]} enumerated by TLC (specs/winpol/Gen_Win)
 //
 // Everything exported is a field-by-field copy of the generated protobuf messages; nothing here
 // evaluates a rule or knows a verdict.
@@ -24,6 +24,7 @@
 //	static  as rand, plus a static-rules.json file
 //	svcmix  as rand, egress rules that combine a service (ip,port) set with a protocol / source match
 //	big     chunking: > 4000 addresses and/or ports per rule
+//	regr    four fixed cases with the shapes of the defects found in the pinned tree (always generated)
 //	enum    TLC-enumerated small layouts
 package main
 
@@ -411,6 +412,47 @@ func genBig(id int, seed int64, variant int) *wcase {
 }
 
 // ---------------------------------------------------------------------------------------------
+// fixed regression cases: the shapes of the defects C30 found in the pinned tree (notes/C30.md F1a, F1b, F2),
+// present in every run so that a return of any of them is always exercised
+
+func tcpPorts(action string, ports ...int32) *proto.Rule {
+	r := &proto.Rule{Action: action, Protocol: polgen.ProtoByName("tcp")}
+	for _, p := range ports {
+		r.DstPorts = append(r.DstPorts, &proto.PortRange{First: p, Last: p})
+	}
+	return r
+}
+
+func genRegression(id int) []*wcase {
+	allowAll := func() []*wprof {
+		return []*wprof{{name: "prof0", in: []*proto.Rule{{Action: "allow"}}, out: []*proto.Rule{{Action: "allow"}}}}
+	}
+	gnp := func(name string, in, out []*proto.Rule) *wpol {
+		return &wpol{kind: "GlobalNetworkPolicy", name: name, govIn: in != nil, govOut: out != nil, in: in, out: out}
+	}
+	staged := func(name string, in []*proto.Rule) *wpol {
+		return &wpol{kind: "StagedGlobalNetworkPolicy", name: name, staged: true, govIn: true, in: in}
+	}
+	mk := func(k int, tiers ...*wtier) *wcase {
+		return &wcase{id: id + k, cls: "regr", tiers: tiers, profiles: allowAll(), hostAddrs: []string{"192.0.2.1/32"}}
+	}
+	return []*wcase{
+		// F1a: pass on tcp:80, next tier allows tcp:443 (disjoint port lists), ingress and egress
+		mk(1, &wtier{name: "tier-a", defaultAction: "Deny", pols: []*wpol{gnp("tier-a.p", []*proto.Rule{tcpPorts("pass", 80)}, []*proto.Rule{tcpPorts("pass", 80)})}},
+			&wtier{name: "default", defaultAction: "Deny", pols: []*wpol{gnp("default.p", []*proto.Rule{tcpPorts("allow", 443)}, []*proto.Rule{tcpPorts("allow", 443)})}}),
+		// F1b: both port lists end with the same port
+		mk(2, &wtier{name: "tier-a", defaultAction: "Deny", pols: []*wpol{gnp("tier-a.p", []*proto.Rule{tcpPorts("pass", 22, 80)}, nil)}},
+			&wtier{name: "default", defaultAction: "Deny", pols: []*wpol{gnp("default.p", []*proto.Rule{tcpPorts("allow", 80)}, nil)}}),
+		// F2: a staged policy in front of an enforced one; a tier that holds only a staged policy
+		mk(3, &wtier{name: "tier-a", defaultAction: "Deny", pols: []*wpol{staged("tier-a.staged", []*proto.Rule{{Action: "deny"}})}},
+			&wtier{name: "default", defaultAction: "Deny", pols: []*wpol{staged("default.staged", []*proto.Rule{{Action: "deny"}}),
+				gnp("default.p", []*proto.Rule{tcpPorts("allow", 80)}, nil)}}),
+		// F2: the default tier holds only a staged policy: the profiles still apply
+		mk(4, &wtier{name: "default", defaultAction: "Deny", pols: []*wpol{staged("default.staged", []*proto.Rule{{Action: "deny"}})}}),
+	}
+}
+
+// ---------------------------------------------------------------------------------------------
 // TLC-enumerated layouts: PolicySem rule JSON -> proto.Rule (the inverse field-by-field copy)
 
 func ints(v any) []int {
@@ -442,10 +484,16 @@ func ruleFromSem(m map[string]any) *proto.Rule {
 		}
 	}
 	for _, f := range []string{"notSrcNets", "notDstNets", "notSrcPorts", "notDstPorts", "srcNamed", "notSrcNamed", "dstNamed",
-		"notDstNamed", "notSrcSets", "notDstSets", "icmp", "notIcmp", "srcSets", "dstSets", "dstIpPortSets"} {
+		"notDstNamed", "notSrcSets", "notDstSets", "icmp", "notIcmp", "dstIpPortSets"} {
 		if len(m[f].([]any)) != 0 {
 			panic("enumerated alphabet uses field " + f + " (not wired)")
 		}
+	}
+	for _, id := range m["srcSets"].([]any) {
+		r.SrcIpSetIds = append(r.SrcIpSetIds, id.(string))
+	}
+	for _, id := range m["dstSets"].([]any) {
+		r.DstIpSetIds = append(r.DstIpSetIds, id.(string))
 	}
 	for _, c := range m["srcNets"].([]any) {
 		r.SrcNet = append(r.SrcNet, cidrString(c))
@@ -465,8 +513,31 @@ func ruleFromSem(m map[string]any) *proto.Rule {
 }
 
 // layout: {"dir":"In"|"Out","tiers":[{"name":s,"defaultAction":s,"policies":[[code,...],...]}],"profile":[code,...]}
-func genEnum(id int, lay map[string]any, alphabet map[string]any) *wcase {
-	c := &wcase{id: id, cls: "enum", hostAddrs: []string{"192.0.2.1/32"}}
+// setsFromSem: the alphabet's IP sets (PolicySem ipsets JSON, "net" sets only) as generator IP sets.
+func setsFromSem(sets map[string]any) []*polgen.IPSet {
+	var out []*polgen.IPSet
+	for _, id := range polgen.SortedKeys(sets) {
+		sm := sets[id].(map[string]any)
+		if sm["type"].(string) != "net" {
+			panic("enumerated alphabets use net sets only")
+		}
+		s := &polgen.IPSet{ID: id, Type: "net", Members: []M{}, MemberStrings: []string{}}
+		for _, mv := range sm["members"].([]any) {
+			str := cidrString(mv)
+			m, err := nfparse.CIDR(str)
+			if err != nil {
+				panic(err)
+			}
+			s.Members = append(s.Members, m)
+			s.MemberStrings = append(s.MemberStrings, str)
+		}
+		out = append(out, s)
+	}
+	return out
+}
+
+func genEnum(id int, lay map[string]any, alphabet map[string]any, sets []*polgen.IPSet) *wcase {
+	c := &wcase{id: id, cls: "enum", hostAddrs: []string{"192.0.2.1/32"}, sets: sets}
 	in := lay["dir"].(string) == "In"
 	rulesOf := func(codes any) []*proto.Rule {
 		var out []*proto.Rule
@@ -634,14 +705,21 @@ func main() {
 		}
 		var b struct {
 			Alphabet map[string]any   `json:"alphabet"`
+			Sets     map[string]any   `json:"sets"`
 			Layouts  []map[string]any `json:"layouts"`
 		}
 		if err := json.Unmarshal(raw, &b); err != nil {
 			panic(err)
 		}
+		sets := setsFromSem(b.Sets)
 		for _, lay := range b.Layouts {
 			id++
-			emit(genEnum(id, lay, b.Alphabet))
+			emit(genEnum(id, lay, b.Alphabet, sets))
+		}
+	}
+	if os.Getenv("VERIF_NOREGR") == "" {
+		for _, c := range genRegression(300000) {
+			emit(c)
 		}
 	}
 	id = 100000
